@@ -42,6 +42,10 @@ class _Other(Exception):
     pass
 
 
+class _StopSub(StopIteration):
+    pass
+
+
 def _transform(samples, out_len, scale):
     L = len(samples)
     idx = [(i * 3 + 1) % L for i in range(out_len)]
@@ -80,6 +84,8 @@ def check_sync(ctx, case):
             raise scared.ResynchroError('rejected')
         if a == 'E':
             raise _Other('boom')
+        if a == 'S':
+            raise (StopIteration if i % 2 == 0 else _StopSub)('an iterator inside the user function was exhausted')
         if a == 'N':
             return None
         return _transform(trace_object.samples[:], out_len, scale)
@@ -173,7 +179,7 @@ def unit_enum(ctx, nmax, shard, nshards):
     def cases():
         k = 0
         for n in range(1, nmax + 1):
-            for pat in itertools.product('AREN', repeat=n):
+            for pat in itertools.product('ARENS' if n <= 4 else 'AREN', repeat=n):
                 k += 1
                 if k % nshards != shard:
                     continue
@@ -186,13 +192,13 @@ def sync_cases(draw):
     n = draw(st.integers(1, 40))
     style = draw(st.sampled_from(['iid', 'runs', 'runs', 'mostly_fail']))
     if style == 'iid':
-        pattern = draw(st.lists(st.sampled_from('AAAREN'), min_size=n, max_size=n))
+        pattern = draw(st.lists(st.sampled_from('AAARENS'), min_size=n, max_size=n))
     elif style == 'mostly_fail':
-        pattern = draw(st.lists(st.sampled_from('ARRENN'), min_size=n, max_size=n))
+        pattern = draw(st.lists(st.sampled_from('ARRENNS'), min_size=n, max_size=n))
     else:
         pattern = []
         while len(pattern) < n:
-            sym = draw(st.sampled_from('AAREN'))
+            sym = draw(st.sampled_from('AARENS'))
             ln = draw(st.sampled_from([1, 1, 2, 3, 8, 9, 16, 17, 20]))
             pattern += [sym] * ln
         pattern = pattern[:n]
